@@ -82,7 +82,7 @@ PROPS = {
         technique="Lean 4 proof (lookup characterisation of folds, permutation invariance) + black-box correspondence in three directions",
     ),
     "C13": dict(
-        modules=["Copia.Props.C13", "Copia.Props.C13b", "Copia.Props.C13c", "Copia.Props.C13d"], namespaces=["Copia.C13"], runner="bb", bb_module="bb_hubsync",
+        modules=["Copia.Props.C13", "Copia.Props.C13b", "Copia.Props.C13c", "Copia.Props.C13d", "Copia.Props.C11c"], namespaces=["Copia.C13"], runner="bb", bb_module="bb_hubsync",
         assumptions=_HUB_ASSUME + ["the hub side is the sequential CAS-Put semantics (its atomicity under concurrency is C03); a local tree with a top-level `.copia` directory is refused by the (repaired) hub and hub-sync reports the error",
                                    "interference is modelled per Put (stale `expected`); an environment that deletes files is outside 'still retrievable'"],
         trusted_base=_HUB_TB + ["tools/sshstub/ssh and tools/sshrelay (pausing relay) as SSH stand-ins"],
@@ -125,7 +125,7 @@ PROPS = {
         technique="Lean 4 proof (prefix invariant of the delivery steps; stream-cut lemma for the remote command) + kill-point injection in three directions",
     ),
     "C03": dict(
-        modules=["Copia.Props.C03", "Copia.Props.C03b", "Copia.Props.C03c"], namespaces=["Copia.C03"], runner="bb", bb_module="bb_hubconc",
+        modules=["Copia.Props.C03", "Copia.Props.C03b", "Copia.Props.C03c", "Copia.Props.C03d"], namespaces=["Copia.C03"], runner="bb", bb_module="bb_hubconc",
         assumptions=_HUB_ASSUME + ["flock(2) mutual exclusion and release on process death, rename(2) atomic replace, O_TRUNC keeping the inode are trusted kernel semantics",
                                    "the interleaved transition system contains Put and Delete (`refinement`); Get runs beside them as its own call sequence (`Model/HubGet`: open, length, hashing pass, header, streaming pass, any writer steps in between) — `C10.get_reply_is_one_version`: the announced hash and length are those of exactly the bytes streamed, one complete verified version the path held after the request began; List is not claimed atomic",
                                    "staging names are per process (WF.tmp_inj) — true of the repaired code (D6), false of the pinned code"],
@@ -139,7 +139,7 @@ PROPS = {
         technique="Lean 4 proof (inductive invariants + refinement to an atomic CAS map) + schedule-controlled linearizability check against the model",
     ),
     "C10": dict(
-        modules=["Copia.Props.C10", "Copia.Props.C10b"], namespaces=["Copia.C10"], runner="bb", bb_module="bb_hubconc",
+        modules=["Copia.Props.C10", "Copia.Props.C10b", "Copia.Props.C10c"], namespaces=["Copia.C10"], runner="bb", bb_module="bb_hubconc",
         assumptions=_HUB_ASSUME + ["kernel semantics as for C03; 'every instant' = after every scheduling step of the client-paced schedule"],
         trusted_base=_HUB_TB,
         level_text="Kernel-checked inductive invariant over the interleaved system incl. kill transitions: in EVERY reachable state every client-visible path holds initial content or the complete bytes of one Put whose streamed hash equalled its declared hash; "
@@ -150,7 +150,7 @@ PROPS = {
         technique="Lean 4 proof (inductive invariant over all interleavings and kills) + per-step observation of real multi-process schedules",
     ),
     "C11": dict(
-        modules=["Copia.Props.C11", "Copia.Props.C11b"], namespaces=["Copia.C11"], runner="bb", bb_module="bb_hub",
+        modules=["Copia.Props.C11", "Copia.Props.C11b", "Copia.Props.C11c"], namespaces=["Copia.C11"], runner="bb", bb_module="bb_hub",
         assumptions=_HUB_ASSUME, trusted_base=_HUB_TB,
         level_text="Kernel-checked theorems for ALL path strings: a path accepted by safe_join (Rust Path::components semantics) joined onto the root resolves — by the kernel's lexical walk — under the root; "
                    "so do its staging name and its conflict-copy name (suffixes appended to the string); a path is refused exactly when it is absolute or has a `..` component. "
